@@ -651,6 +651,32 @@ impl VerifManager {
         Err("still blocked on a full channel after draining".into())
     }
 
+    /// Like `answer_open_failure`, for a protocol whose event channel may be full (see `answer_open_success_draining`).
+    pub fn answer_open_failure_draining(
+        &mut self,
+        id: usize,
+        substream_id: usize,
+        drain: &mut dyn FnMut(),
+    ) -> Result<(), String> {
+        let (protocol, _permit, _) =
+            self.open_requests.remove(&substream_id).ok_or("no such open request")?;
+        let mut shared = self.shared.lock();
+        let connection = shared.live.get_mut(&id).ok_or("no such live connection")?;
+        let report = connection.protocol_set.report_substream_open_failure(
+            protocol,
+            SubstreamId::from(substream_id),
+            SubstreamError::NegotiationError(NegotiationError::Timeout),
+        );
+        futures::pin_mut!(report);
+        for _ in 0..100_000 {
+            if let Some(result) = tokio::task::unconstrained(report.as_mut()).now_or_never() {
+                return result.map_err(|error| format!("{error:?}"));
+            }
+            drain();
+        }
+        Err("still blocked on a full channel after draining".into())
+    }
+
     /// Reports an inbound substream for `protocol` on connection `id`.
     pub fn report_inbound_substream(
         &mut self,
